@@ -54,9 +54,12 @@ fn compare_partial(before: &v1::Function, after: &v1::Function, fixed: &BTreeMap
             e == g
         } else {
             let a = abs_expected.terms.get(k).cloned().unwrap_or_else(Q::zero);
-            // rounding + documented epsilon dropping (a dropped coefficient may already have been
-            // multiplied by fixed values, or is dropped before that multiplication)
-            let bound = gamma(2 * (nterms + deg) + 8) * a + Q::from_integer((nterms as u64 + 2).into()) * eps() * amplification(&xq, deg);
+            // rounding + documented epsilon dropping in ONE partial evaluation: a stored coefficient
+            // <= EPSILON may be skipped before it is multiplied by the fixed values (exactly that product is
+            // allowed to be missing), and a merged partial sum <= EPSILON may be removed (already multiplied)
+            let tiny = tiny_terms_partial(before, &abs_map(&xq)).terms.get(k).cloned().unwrap_or_else(Q::zero);
+            let _ = deg;
+            let bound = gamma(2 * (nterms + deg) + 8) * a + tiny + Q::from_integer((nterms as u64 + 2).into()) * eps();
             (e - g).abs() <= bound
         };
         if !ok {
@@ -131,7 +134,7 @@ impl C03 {
         for _ in 0..rng.below(3) {
             ids.insert(rng.below(30) + 200);
         }
-        let all = sorted_state(&gen_state(rng, &ids, regime));
+        let all = sorted_state(&gen_state_x(rng, &ids, regime));
         let (s1, s2) = split_state(rng, &all);
         let wrap = rng.below(3); // 0 bare function, 1 constraint, 2 removed constraint
         let wname = ["function", "constraint", "removed-constraint"][wrap as usize];
